@@ -4,6 +4,7 @@ from __future__ import annotations
 import ast
 import errno
 import itertools
+import math
 import os
 import selectors
 import socket
@@ -821,7 +822,7 @@ def run_sync(cfg):
 
 # ---- the library's own default TLS path: TCPNetworkClient(..., ssl=True) / AsyncTCPNetworkClient(..., ssl=True)
 
-K_DEFAULT_CLIENT, K_DEFAULT_FLAG = 2, 3
+K_DEFAULT_CLIENT, K_DEFAULT_FLAG, K_DEFAULT_CLIENT_ASYNC = 2, 3, 4
 
 
 class _RecDefaultContext(ssl.SSLContext):
@@ -951,6 +952,126 @@ def run_default_client(cfg):
     return dict(ops=ops, answers=answers, obs=[first, last, flag], info=info)
 
 
+def run_default_client_async(cfg):
+    """AsyncTCPNetworkClient(sock, protocol, backend, ssl=True) over loopback TCP against the relayed peer, cut after k
+    bytes; runs on the deterministic loop with real sockets (the selector waits for the relay thread)."""
+    import asyncio
+
+    from easynetwork.clients.async_tcp import AsyncTCPNetworkClient
+    from easynetwork.lowlevel.api_async.backend._asyncio.backend import AsyncIOBackend
+    from easynetwork.protocol import StreamProtocol
+    from easynetwork.serializers.line import StringLineSerializer
+
+    std, ver, cut = bool(cfg["std"]), cfg["ver"], cfg.get("cut")
+    rec = K.Recorder()
+    holder = []
+    lst = socket.socket()
+    lst.bind(("127.0.0.1", 0))
+    lst.listen(1)
+    a = socket.create_connection(lst.getsockname())
+    b, _ = lst.accept()
+    lst.close()
+    b.settimeout(5.0)
+    peer = K.Peer(K.server_ctx(ver), True, [("write", b"hello\n"), ("write", b"x" * 39 + b"\n"), ("unwrap",)])
+    state = dict(delivered=0, err=None)
+
+    def relay():
+        try:
+            out = peer.pump()
+            while True:
+                if out:
+                    room = len(out) if cut is None else max(0, min(len(out), cut - state["delivered"]))
+                    if room:
+                        b.sendall(out[:room])
+                        state["delivered"] += room
+                if cut is not None and state["delivered"] >= cut:
+                    break
+                if peer.handshaken and not peer.script:
+                    break
+                data = b.recv(65536)
+                if not data:
+                    break
+                peer.feed(data)
+                out = peer.pump()
+            b.shutdown(socket.SHUT_WR)
+            while True:
+                d = b.recv(65536)
+                if not d:
+                    break
+                peer.feed(d)
+                peer.pump()
+        except OSError as exc:
+            state["err"] = repr(exc)
+
+    th = threading.Thread(target=relay, daemon=True)
+    th.start()
+    res = dict(first=None, last=None, end=None)
+
+    def unwrap_cause(exc):
+        return exc.__cause__ if isinstance(exc, ConnectionAbortedError) and isinstance(exc.__cause__, ssl.SSLError) else exc
+
+    async def main():
+        rec.name_task(0)
+        saved = ssl.create_default_context
+        ssl.create_default_context = _default_context_factory(holder, [], ver)
+        try:
+            client = AsyncTCPNetworkClient(a, StreamProtocol(StringLineSerializer()), AsyncIOBackend(), ssl=True,
+                                           server_hostname="localhost", ssl_standard_compatible=std,
+                                           # no timers: the deterministic loop must WAIT (real time, bounded by
+                                           # allow_block) for the relay thread instead of advancing its virtual clock
+                                           ssl_handshake_timeout=math.inf, ssl_shutdown_timeout=math.inf)
+        finally:
+            ssl.create_default_context = saved
+        try:
+            with K.patched_tls_wrap(rec):
+                await client.wait_connected()
+            res["first"] = [1, 0, 0]
+        except BaseException as exc:
+            res["first"] = [1, 1, exc_code(unwrap_cause(exc))]
+            res["end"] = len(rec.events)
+            return
+        for _ in range(6):
+            try:
+                await client.recv_packet()
+            except ConnectionAbortedError as exc:
+                res["last"] = [1, 1, exc_code(exc.__cause__)] if isinstance(exc.__cause__, ssl.SSLError) else [1, 0, 0]
+                break
+            except BaseException as exc:
+                res["last"] = [1, 1, exc_code(exc)]
+                break
+        res["end"] = len(rec.events)
+        try:
+            await client.aclose()
+        except BaseException:
+            pass
+
+    try:
+        with detloop.running(allow_block=5.0) as loop:
+            loop.run_until_complete(main())
+    except detloop.DeadlockError:
+        state["err"] = "deadlock"
+    th.join(10)
+    for s_ in (a, b):
+        try:
+            s_.close()
+        except OSError:
+            pass
+    events = rec.events[: res["end"] if res["end"] is not None else len(rec.events)]
+    answers, _obs = _events_to_case(events)
+    ops = [[OP_WRAP, 0]]
+    for ev in events:
+        if ev[0] == "ssl" and ev[2] == K.M_READ and ev[4] not in (K.O_WANT_READ, K.O_WANT_WRITE):
+            ops.append([OP_RECV, ev[3]])
+    # transport-level failures inside a pumped read end that read as well
+    nreads = sum(1 for o in ops if o[0] == OP_RECV)
+    first = res["first"] or [1, 2, 0]
+    last = res["last"] or first
+    flag = int(bool(holder and holder[0].options & ssl.OP_IGNORE_UNEXPECTED_EOF))
+    info = dict(delivered=state["delivered"], peer_total=peer.total_out, peer_done=bool(peer.handshaken and not peer.script),
+                cn_seen=bool(peer.got_close_notify), err=state["err"], nreads=nreads)
+    return dict(ops=ops, answers=answers, obs=[first, last, flag], info=info)
+
+
 def run_default_flag(which):
     """Is OP_IGNORE_UNEXPECTED_EOF still set on the default context after the client's constructor?"""
     from easynetwork.protocol import StreamProtocol
@@ -1006,6 +1127,19 @@ def _default_client_cases(thorough):
                 _MEMO[sx.to_text(inp)] = sx.norm(r["obs"])
                 yield dict(input=inp, nontrivial=cut < total,
                            tags=["default-client-path", "blocking", "real-openssl", f"tls1.{ver - 10}",
+                                 "std" if std else "nonstd", "truncated" if cut < total else "clean-close"])
+        # the same sweep through AsyncTCPNetworkClient(ssl=True)
+        base = dict(kind=K_DEFAULT_CLIENT_ASYNC, std=1, ver=ver, cut=None)
+        r = run_default_client_async(base)
+        total = r["info"]["delivered"]
+        for cut in sorted(set(range(0, total + 1, step)) | {total - 30, total - 2, total - 1, total}):
+            for std in (1, 0):
+                cfg = dict(base, std=std, cut=cut)
+                r = run_default_client_async(cfg)
+                inp = sx.norm([K_DEFAULT_CLIENT_ASYNC, std, r["ops"], r["answers"], 1, [b"aclient", ver, cut]])
+                _MEMO[sx.to_text(inp)] = sx.norm(r["obs"])
+                yield dict(input=inp, nontrivial=cut < total,
+                           tags=["default-client-path", "async", "real-openssl", f"tls1.{ver - 10}",
                                  "std" if std else "nonstd", "truncated" if cut < total else "clean-close"])
 
 
@@ -1063,6 +1197,9 @@ def run_impl(inp):
     if kind == K_DEFAULT_CLIENT:
         tail = inp[-1]
         return run_default_client(dict(std=std, ver=tail[1], cut=tail[2]))["obs"]
+    if kind == K_DEFAULT_CLIENT_ASYNC:
+        tail = inp[-1]
+        return run_default_client_async(dict(std=std, ver=tail[1], cut=tail[2]))["obs"]
     cfg = _sx_cfg(kind, std, inp[-1])
     inp2, out, _info = _build(cfg)
     if sx.norm(inp2[3]) != sx.norm(inp[3]) and kind == K_ASYNC:
@@ -1281,10 +1418,10 @@ def oracle(inp):
             return ("default client context: OP_IGNORE_UNEXPECTED_EOF is still set after the %s client's constructor "
                     "(ssl=True), so OpenSSL hides truncations" % ("asynchronous" if inp[1] else "blocking"))
         return None
-    if kind == K_DEFAULT_CLIENT:
+    if kind in (K_DEFAULT_CLIENT, K_DEFAULT_CLIENT_ASYNC):
         tail = inp[-1]
         cfg = dict(std=std, ver=tail[1], cut=tail[2])
-        r = run_default_client(cfg)
+        r = run_default_client(cfg) if kind == K_DEFAULT_CLIENT else run_default_client_async(cfg)
         info = r["info"]
         first, last, _flag = r["obs"]
         trunc = not (info["peer_done"] and info["delivered"] >= info["peer_total"])
